@@ -227,3 +227,12 @@ def _replay_valid(model, ob):
                             "inputs": {"static_files_allowed": allowed, "static_files_forbidden": forbidden, "path": path},
                             "expected": want, "observed": got}
     return {"confirmed": False, "tried": len(paths)}
+
+
+def _bounded_finder(tier, repo):
+    from harness.bounded_finder import run
+    return run(repo)
+
+
+REG.bounded_check("bounded#finder_list_and_find_expose_exactly_the_allowed_files", P, _bounded_finder,
+                  note="ComponentsFileSystemFinder.list / find (loops over locations, storages) are not under contract: a real components directory with 14 files (allowed / forbidden suffixes, look-alikes, upper case, nested) is served through the real finder under 4 configurations; list() and find() must expose exactly the allowed, not forbidden files.  Observation (not a finding: the property does not say which string is matched): list() tests the path RELATIVE to the location, find() the ABSOLUTE path, so a compiled pattern that mentions a directory separator can hide a file from find() and not from list()")
